@@ -63,7 +63,45 @@ def sites_aor(text):
     return res
 
 
+def sites_sdl(text):
+    """single-line simple statements (`...;`, no `let`, no block, no return / break / continue) that can be deleted"""
+    cut = text.find('#[cfg(test)]')
+    body = text if cut < 0 else text[:cut]
+    res = []
+    for li, line in enumerate(body.split('\n')):
+        s = line.strip()
+        if not s.endswith(';') or s.startswith('//') or s.startswith('#') or s.startswith('let ') or s.startswith('use ') or s.startswith('pub ') \
+                or s.startswith('const ') or s.startswith('static ') or s.startswith('type ') or s.startswith('return') or s.startswith('break') \
+                or s.startswith('continue') or s.startswith('}') or s.startswith('mod ') or s.startswith('fn ') or '{' in s or s.count('(') != s.count(')'):
+            continue
+        if not line.startswith('        '):
+            continue     # not inside a function body
+        res.append(li)
+    return res
+
+
 def gen(kind='ror'):
+    if kind == 'sdl':
+        shutil.rmtree(OUT, ignore_errors=True)
+        os.makedirs(OUT + '/mut')
+        n = 0
+        for f in FILES:
+            text = open('/repo/' + f).read()
+            lines = text.split('\n')
+            for li in sites_sdl(text):
+                new = lines[:li] + lines[li + 1:]
+                mid = '%s_%d_del' % (f.replace('/', '_').replace('.rs', ''), li + 1)
+                d = tempfile.mkdtemp(dir=OUT)
+                os.makedirs(os.path.join(d, 'a', os.path.dirname(f)), exist_ok=True)
+                os.makedirs(os.path.join(d, 'b', os.path.dirname(f)), exist_ok=True)
+                open(os.path.join(d, 'a', f), 'w').write(text)
+                open(os.path.join(d, 'b', f), 'w').write('\n'.join(new))
+                p = subprocess.run(['diff', '-u', 'a/' + f, 'b/' + f], cwd=d, capture_output=True, text=True)
+                open('%s/mut/%s.patch' % (OUT, mid), 'w').write(p.stdout)
+                shutil.rmtree(d)
+                n += 1
+        print(n, 'mutants')
+        return
     shutil.rmtree(OUT, ignore_errors=True)
     os.makedirs(OUT + '/mut')
     n = 0
@@ -167,7 +205,8 @@ def judge():
                     res.append('%s:%s' % (u, st))
         finally:
             shutil.rmtree(d, ignore_errors=True)
-        line = [l for l in open(pf).read().split('\n') if l.startswith('+') and not l.startswith('+++')]
+        line = [l for l in open(pf).read().split('\n') if l.startswith('+') and not l.startswith('+++')] or \
+               ['-' + l[1:].strip() for l in open(pf).read().split('\n') if l.startswith('-') and not l.startswith('---')]
         return mid, res, (line[0][1:].strip() if line else '')
     with cf.ThreadPoolExecutor(max_workers=5) as ex:
         for mid, res, line in ex.map(one, surv):
